@@ -559,3 +559,138 @@ Definition s_run_t (p : progT) : result :=
 
 Definition safe_t (p : progT) : bool :=
   match t_ctx p with TAsg | TAsgMain => false | _ => true end.
+
+(* ------------------------------------------------------------------------------------------ *)
+(* 7. The type-name rule of return.cpp handle_enum_access_return / ternary.cpp                 *)
+(*    evaluate_error_propagation_typed: `enum_name.find("Result") == 0 || find("Option") == 0` *)
+(*    - every enum whose NAME starts with Result/Option (also a user enum `Optional`,          *)
+(*    `ResultOf`) returns its payload-less literals as a struct                                *)
+(* ------------------------------------------------------------------------------------------ *)
+Definition builtin_of_name (tn : str) : bool := is_prefix (s2l "Result") tn || is_prefix (s2l "Option") tn.
+
+(* ------------------------------------------------------------------------------------------ *)
+(* 8. Family M: several enum values (of one or two enums that may share variant names), match  *)
+(*    statements packaged as functions, executed as a sequence of calls (the same match code   *)
+(*    meets different values; values and earlier calls must not influence later ones)          *)
+(* ------------------------------------------------------------------------------------------ *)
+Inductive mstyle :=
+| MInline    (* match (v) { arms } println("end", j);                          directly in main *)
+| MVoid      (* void hj(T ev) { match (ev) { arms } println("end", j); }       main: hj(v);     *)
+| MRet       (* int hj(T ev) { match (ev) { arm i => { ..; return i; } } println("fell", j); return 99; }
+                main: println("ret", j, hj(v));                                                  *)
+| MExpr      (* as MVoid, every arm body is a single expression: a call of a printing helper    *)
+| MLoop.     (* void hj(T ev) { for (k = 0; k < 2; k++) { match (ev) { arms } } println("end", j); } *)
+(* f_nest = Some (i0, arms2): the body of arm i0 goes on with  match (ev2) { arms2 }  on a second value *)
+Record mfn := mkF { f_style : mstyle; f_arms : list pattern; f_nest : option (nat * list pattern) }.
+(* k_direct: the argument is the constructor expression itself, hj(T::V(p)), not a variable *)
+Record mcall := mkK { k_fn : nat; k_val : cval; k_val2 : cval; k_direct : bool }.
+Record progM := mkM { pm_fns : list mfn; pm_calls : list mcall }.
+
+Inductive mev :=
+| EM (j i : nat) (b : bval)        (* "m j arm i [x]"  - match of function j ran arm i *)
+| EInner (j i : nat) (b : bval)    (* "n j arm i [x]"  - the nested match *)
+| EEnd (j : nat)                   (* "end j" *)
+| ERetV (j i : nat)                (* "ret j i" *)
+| EDone.                           (* "after" *)
+Record mresult := mkMR { mr_events : list mev; mr_exit : exitc }.
+
+Definition eff_nest (f : mfn) : option (nat * list pattern) :=
+  match f_style f with MExpr => None | _ => f_nest f end.
+Definition is_inline (f : mfn) : bool := match f_style f with MInline => true | _ => false end.
+
+(* how a value reaches the function: a variable through assign_function_parameter (m_pass); a constructor
+   expression as the argument arrives as an integer; the inline form reads the variable itself *)
+Definition m_arg (f : mfn) (direct : bool) (c : cval) : stored :=
+  if is_inline f then encode c else if direct then not_enum else m_pass (encode c).
+
+Definition armres_out (mk : nat -> bval -> mev) (variant : str) (a : armres) : list mev * exitc :=
+  match a with
+  | ArmOk i b => ([mk i b], XOk)
+  | ArmUnbound _ => ([], XUnbound)
+  | NoArm => ([], XNonExhaustive variant)
+  end.
+
+(* one execution of the match statement of function j (with the nested match if the selected arm has one) *)
+Definition m_once (j : nat) (f : mfn) (sv sv2 : stored) : list mev * exitc :=
+  if negb (s_enum sv) then ([], XNotEnum) else
+  let a := mech_match sv (f_arms f) in
+  let o := armres_out (EM j) (s_variant sv) a in
+  match snd o, a, eff_nest f with
+  | XOk, ArmOk i _, Some (i0, arms2) =>
+      if Nat.eqb i i0 then
+        if negb (s_enum sv2) then (fst o, XNotEnum) else
+        let o2 := armres_out (EInner j) (s_variant sv2) (mech_match sv2 arms2) in
+        (fst o ++ fst o2, snd o2)
+      else o
+  | _, _, _ => o
+  end.
+
+Definition sel_index (a : armres) : nat := match a with ArmOk i _ | ArmUnbound i => i | NoArm => O end.
+
+Definition then_ev (o : list mev * exitc) (rest : list mev * exitc) : list mev * exitc :=
+  match snd o with XOk => (fst o ++ fst rest, snd rest) | x => (fst o, x) end.
+
+Definition m_call (fns : list mfn) (k : mcall) : list mev * exitc :=
+  match nth_error fns (k_fn k) with
+  | None => ([], XUnmodelled)
+  | Some f =>
+      let j := k_fn k in
+      let sv := m_arg f (k_direct k) (k_val k) in
+      let sv2 := m_arg f false (k_val2 k) in
+      let once := m_once j f sv sv2 in
+      match f_style f with
+      | MInline | MVoid | MExpr => then_ev once ([EEnd j], XOk)
+      | MRet => then_ev once ([ERetV j (sel_index (mech_match sv (f_arms f)))], XOk)
+      | MLoop => then_ev once (then_ev once ([EEnd j], XOk))
+      end
+  end.
+
+Fixpoint run_calls (call : mcall -> list mev * exitc) (ks : list mcall) : list mev * exitc :=
+  match ks with
+  | [] => ([EDone], XOk)
+  | k :: rest => then_ev (call k) (run_calls call rest)
+  end.
+Definition m_run_m (p : progM) : mresult :=
+  let o := run_calls (m_call (pm_fns p)) (pm_calls p) in mkMR (fst o) (snd o).
+
+(* Spec: the property's own reading - arguments arrive unchanged however they are written *)
+Definition s_once (j : nat) (f : mfn) (c c2 : cval) : list mev * exitc :=
+  let a := spec_match c (f_arms f) in
+  let o := armres_out (EM j) (c_variant c) a in
+  match snd o, a, eff_nest f with
+  | XOk, ArmOk i _, Some (i0, arms2) =>
+      if Nat.eqb i i0 then
+        let o2 := armres_out (EInner j) (c_variant c2) (spec_match c2 arms2) in
+        (fst o ++ fst o2, snd o2)
+      else o
+  | _, _, _ => o
+  end.
+Definition s_call (fns : list mfn) (k : mcall) : list mev * exitc :=
+  match nth_error fns (k_fn k) with
+  | None => ([], XUnmodelled)
+  | Some f =>
+      let j := k_fn k in
+      let once := s_once j f (k_val k) (k_val2 k) in
+      match f_style f with
+      | MInline | MVoid | MExpr => then_ev once ([EEnd j], XOk)
+      | MRet => then_ev once ([ERetV j (sel_index (spec_match (k_val k) (f_arms f)))], XOk)
+      | MLoop => then_ev once (then_ev once ([EEnd j], XOk))
+      end
+  end.
+Definition s_run_m (p : progM) : mresult :=
+  let o := run_calls (s_call (pm_fns p)) (pm_calls p) in mkMR (fst o) (snd o).
+
+(* conforming fragment: representable payloads; payload-less values only where no parameter passing is
+   involved (inline form); no constructor expression as an argument *)
+Definition has_pl (c : cval) : bool := match c_payload c with PNone => false | _ => true end.
+Definition good_cval (c : cval) : bool :=
+  match c_payload c with PNone => true | PInt _ => true | PStr s => negb (is_empty s) end.
+Definition needs2 (f : mfn) : bool := match eff_nest f with Some _ => true | None => false end.
+Definition safe_call (fns : list mfn) (k : mcall) : bool :=
+  match nth_error fns (k_fn k) with
+  | None => false
+  | Some f =>
+      good_cval (k_val k) && (negb (needs2 f) || good_cval (k_val2 k)) &&
+      (is_inline f || (negb (k_direct k) && has_pl (k_val k) && (negb (needs2 f) || has_pl (k_val2 k))))
+  end.
+Definition safe_m (p : progM) : bool := forallb (safe_call (pm_fns p)) (pm_calls p).
